@@ -536,9 +536,9 @@ func main() {
 			Enabled:  func(h []event) []event { return alphabet },
 			Exec:     func(h []event) (string, string, *seqx.Failure) { return exec(v, h, false) },
 			MaxDepth: depth, Workers: 16,
-			// every history of length <= 3 (alphabet 16, thorough 19) is executed whatever the canonical key says; one
-			// execution costs ~20 ms of CPU (files, NewConfig), so length 4 (65,536 histories per version) is out of reach
-			NoMergeDepth: 2,
+			// every history of length <= 2 (thorough: 3; alphabet 16 / 19) is executed whatever the canonical key says; one
+			// execution costs ~20 ms of CPU (files, NewConfig) and the quick tier has to stay inside its 8-minute budget
+			NoMergeDepth: ev.Pick(r, 1, 2),
 		})
 	}
 	r.Set("traces_validated_against_impl", r.Count("transitions"))
